@@ -26,6 +26,8 @@ import (
 	"fmt"
 	"io"
 	"net"
+	"os"
+	"path/filepath"
 	"sort"
 	"strconv"
 	"strings"
@@ -975,6 +977,45 @@ func c10RunCacheHistory(st *VStream, r *VRand, obs *c10Observer, stats *VStats, 
 	}
 }
 
+// Probe (outside the property's history alphabet, reported separately): the tail of
+// ControlPlane.RebuildReloadDatapath — clearReloadDomainRoutingMap on a generation whose tracker is already
+// populated, then CloneDnsCache + RestoreReloadCache (+ the refresh worker).  The first and last steps are the
+// real functions; BuildKernspace in between needs real BPF objects and is skipped.
+func c10RollbackProbe(obs *c10Observer, stats *VStats) string {
+	w := c10NewCacheWorld(obs, stats, false, 0, 0)
+	h := &c10Hist{w: w, st: nil, r: nil, stats: stats, fixed: map[string]int{}}
+	bm := c10ParseBits("3.40", 32)
+	put := func(k c10Key, ans ...string) {
+		var rrs []dnsmessage.RR
+		for _, a := range ans {
+			rrs = append(rrs, c10MakeAns(a, k.name))
+		}
+		w.nextBitmap = bm
+		if err := w.ctrl.UpdateDnsCacheTtlWithKey(k.key(), k.name, k.qtype, rrs, nil, nil, 300); err != nil {
+			panic(err)
+		}
+	}
+	_ = h
+	put(c10Key{"a.com.", dnsmessage.TypeA, ""}, "4:01020304", "4:0a000001")
+	put(c10Key{"b.com.", dnsmessage.TypeA, ""}, "4:01020304")
+	before, _ := w.mirror()
+	nBefore := len(obs.shadow)
+	obs.takeCalls()
+	if err := clearReloadDomainRoutingMap(w.core.bpf.Load()); err != nil {
+		return "rollback clear-failed:" + err.Error()
+	}
+	cache := w.ctrl.CloneCacheForReload()
+	w.ctrl.RestoreReloadCache(cache, func(string) []uint32 { return bm }, time.Now())
+	queued := len(w.ctrl.bpfUpdateCh)
+	for len(w.ctrl.bpfUpdateCh) > 0 {
+		w.ctrl.processBpfUpdateTask(<-w.ctrl.bpfUpdateCh, false)
+	}
+	calls := obs.takeCalls()
+	after, n := w.mirror()
+	return fmt.Sprintf("rollback before_mirror=%s before_table=%d cache=%d refreshes_applied=%d after_mirror=%s after_table=%d %s",
+		c10B(before), nBefore, n, queued, c10B(after), len(obs.shadow), calls)
+}
+
 func TestVerifC10(t *testing.T) {
 	stats := NewVStats()
 	c10RunTrackerStream(t, stats)
@@ -995,5 +1036,9 @@ func TestVerifC10(t *testing.T) {
 			c10RunCacheHistory(st, r, obs, stats, g, scripted)
 		})
 	}
+	synctest.Test(t, func(t *testing.T) {
+		line := VRecover(func() string { return c10RollbackProbe(obs, stats) })
+		_ = os.WriteFile(filepath.Join(VOutDir(), "c10.rollback.txt"), []byte(line+"\n"), 0o644)
+	})
 	stats.Write("c10")
 }
